@@ -246,6 +246,12 @@ func ConvScalar(rt reflect.Type, base int, text string) Verdict {
 		}
 		return Verdict{Class: MustReject}
 	case reflect.Int, reflect.Int8, reflect.Int16, reflect.Int32, reflect.Int64:
+		if base == 0 {
+			var grey bool
+			if text, base, grey = autoBase(text); grey {
+				return Verdict{Class: Grey}
+			}
+		}
 		n, cl := intVerdict(text, base, rt.Bits(), true)
 		if n == nil {
 			return Verdict{Class: cl}
@@ -254,6 +260,12 @@ func ConvScalar(rt reflect.Type, base int, text string) Verdict {
 		v.SetInt(n.Int64())
 		return Verdict{Class: cl, Value: v, HasValue: true}
 	case reflect.Uint, reflect.Uint8, reflect.Uint16, reflect.Uint32, reflect.Uint64:
+		if base == 0 {
+			var grey bool
+			if text, base, grey = autoBase(text); grey {
+				return Verdict{Class: Grey}
+			}
+		}
 		n, cl := intVerdict(text, base, rt.Bits(), false)
 		if n == nil {
 			return Verdict{Class: cl}
@@ -426,4 +438,27 @@ func Show(v reflect.Value) string {
 		return v.Type().String() + "{" + strings.Join(parts, ", ") + "}"
 	}
 	return fmt.Sprintf("%#v", v.Interface())
+}
+
+// autoBase resolves base 0 ("infer the base from the prefix", as in Go source): 0x.. 16, 0b.. 2, 0o.. and 0.. 8, else 10.
+// It returns the numeral without its prefix (sign kept) and the base; underscores make the text grey.
+func autoBase(text string) (string, int, bool) {
+	if strings.Contains(text, "_") {
+		return text, 10, true
+	}
+	sign, rest := "", text
+	if len(rest) > 0 && (rest[0] == '+' || rest[0] == '-') {
+		sign, rest = rest[:1], rest[1:]
+	}
+	switch {
+	case len(rest) > 2 && (rest[:2] == "0x" || rest[:2] == "0X"):
+		return sign + rest[2:], 16, false
+	case len(rest) > 2 && (rest[:2] == "0b" || rest[:2] == "0B"):
+		return sign + rest[2:], 2, false
+	case len(rest) > 2 && (rest[:2] == "0o" || rest[:2] == "0O"):
+		return sign + rest[2:], 8, false
+	case len(rest) > 1 && rest[0] == '0':
+		return sign + rest[1:], 8, false
+	}
+	return text, 10, false
 }
